@@ -122,7 +122,12 @@ class Translate(BaseTranslateFilter, TranslatableFilter):
         plural = kwargs.pop("plural", None)
         n = _count(kwargs.get("count"))
 
-        if plural is not None and n is not None:
+        if plural is not None:
+            if n is None:
+                # Like the translate tag, a plural message is looked up as
+                # such whatever the count turns out to be. It defaults to 1.
+                n = 1
+
             plural = to_liquid_string(
                 plural,
                 auto_escape=auto_escape and self.auto_escape_message,
